@@ -139,6 +139,10 @@ def conclude(pid, tier, seed, obls, infos, undecided_reasons, wall, write_eviden
             "assumptions": GLOBAL_ASSUMPTIONS + P.get("assumptions", []),
             "wall_s": round(wall, 2), "violations": len(viol),
         }
+        if P.get("category") == "other":
+            ev["coverage"]["explanation"] = ("bounded symbolic execution (Kani/CBMC) of mechanically extracted slices against a contract; "
+                                             "%d bounded obligations, %d discharged; nothing is counted as proved. %s"
+                                             % (len(bounded), sum(1 for o in bounded if o.status == DISCHARGED), P["claim"]))
         with open(os.path.join(EVIDENCE, pid + ".json"), "w") as f:
             json.dump(ev, f, indent=1)
     for l in lines:
